@@ -23,9 +23,10 @@ def bal_units(b):
 
 
 def known_bal_ctor_rhs_kwargs(case):
-    """BalanceComp(name, ..., rhs_kwargs=...) through the constructor."""
+    """BalanceComp(name, ..., lhs_kwargs=... and/or rhs_kwargs=...) through the constructor (which forwards
+    rhs_kwargs=lhs_kwargs)."""
     b = case['bals'][0]
-    return bool(b.get('ctor')) and b.get('rhs_kw') is not None
+    return bool(b.get('ctor')) and (b.get('rhs_kw') is not None or b.get('lhs_kw') is not None)
 
 
 def known_bal_shared_kwargs(case):
@@ -79,7 +80,7 @@ def make_balance(case):
         for side in ('lhs', 'rhs', 'mult'):
             d = b.get(side + '_kw')
             if d is not None:
-                kw[side + '_kwargs'] = dict(d)
+                kw[side + '_kwargs'] = {k: (q(v_) if k == 'val' else v_) for k, v_ in d.items()}
         if i == 0:
             first_lhs_kw = kw.get('lhs_kwargs')
         elif b.get('share_lhs_kw') and first_lhs_kw is not None:
@@ -259,7 +260,12 @@ def judge_bal(case, res):
             fail_exc(res, 'bal', None, e, f"feedback model ({mode})")
             return
         for j, (b, shape, nms, uns, L, R, M) in enumerate(info):
-            val, (dl, dr, dm), sv, (sl, sr, sm), mv = forms[b['name']]
+            mv = forms[b['name']][4]
+            mm = M.mag if M is not None else np.ones(shape)
+            x0 = dec(case['state'][b['name']]).reshape(shape)
+            # the model forms lhs = x0 + (lhs - x0): its rounding error is relative to |x0| + |q|
+            val, (dl, dr, dm), sv, (sl, sr, sm) = eq_formula(x0 + qv[b['name']], R.val, mv, b['normalize'],
+                                                             np.abs(x0) + np.abs(qv[b['name']]), R.mag, mm)
             pre = 'bal-normalize-rank2-mixed-rhs' if known_bal_ndim2_mixed(b, R.val) else 'bal'
             fx = 1.0                                               # ExecComp adds the numbers as they are
             F = dl * fx                                            # dR/dstate through lhs = x*fx + q
@@ -405,6 +411,12 @@ def known_spline_ycp_list(case):
     return any(s.get('ycpk') == 'list' for s in case['splines'])
 
 
+def known_spline_bsplines_square(case):
+    """bsplines with as many interpolation points as vec_size (> 1 here): spline_gradient() tells the per-point akima
+    derivative array from the shared sparse bspline matrix by `shape[0] == vec_size`."""
+    return case['method'] == 'bsplines' and len(case['x_interp']) == case['vec']
+
+
 def ref_interp(case, grid, xi, rows):
     """openmdao's own InterpND (table mode; spline mode for bsplines) for each row of control-point values."""
     from openmdao.components.interp_util.interp import InterpND
@@ -512,6 +524,7 @@ def judge_spline(case, res):
                         ok = False
                     Jm[k * ni:(k + 1) * ni, k * ncp + j] = cols[1]
             extra[s['out']] = ('fd', Jm, ok)
+            partials[s['out'], s['cp']] = (Jm, _block_scale(v, ni, ncp, amp), 1e-5 if ok else None)
         extra.setdefault(s['out'], ('lin', None, True))
 
     def known(clause, of=None, wrt=None):
@@ -520,6 +533,8 @@ def judge_spline(case, res):
                 return 'spline-y_cp_val-given-as-list'
             if kn_x:
                 return 'spline-x_interp_val-given-as-list'
+            if clause == 'run' and known_spline_bsplines_square(case):
+                return 'spline-bsplines-n_interp-equals-vec_size'
         return None
 
     fam = Fam('spline', make, inputs, outputs, partials, known)
@@ -561,17 +576,14 @@ def judge_spline(case, res):
                 msg = worst(y, exp, ymag * 100.0)
                 if msg:
                     res.fail('spline:bsplines-vs-scipy-BSpline', f"{s['out']} ({mode}): {msg}")
-            kind, Jfd, ok = extra[s['out']]
-            if kind == 'fd' and ok:
-                got_J = None
-                for k in J:
-                    if k[0] == 'c.' + s['out'] and (k[1] == 'c.' + s['cp'] or k[1] == _src_name(inputs, s['cp'])):
-                        got_J = np.asarray(J[k], dtype=float)
-                if got_J is not None:
-                    msg = worst(got_J, Jfd * Y.f, 1.0 * abs(Y.f), tol=1e-5 * 100.0)
-                    if msg:
-                        res.fail(f"spline:akima-partials-vs-fd-{mode}", f"d {s['out']} / d {s['cp']}: {msg}")
     return extra
+
+
+def _block_scale(v, ni, ncp, amp):
+    S = np.zeros((v * ni, v * ncp))
+    for k in range(v):
+        S[k * ni:(k + 1) * ni, k * ncp:(k + 1) * ncp] = 100.0 * amp
+    return S
 
 
 def _src_name(inputs, name):
